@@ -156,3 +156,9 @@ package gcrypto
 //@       (forall i mathint :: {pbits(result0)[i]} !pbits(result0)[i])
 //@   modifies nothing
 
+
+//@ iface CommonMessageSignatureProofScheme.KeyIDChecker(sch, keys)
+//@   ensures result != nil
+//@   modifies nothing
+//@ iface KeyIDChecker.IsValid(c, keyID)
+//@   modifies nothing
